@@ -77,6 +77,10 @@ struct Case {
     /// has elapsed (a request timeout, as `ExecutionManager` applies one) - the order still reached the venue
     #[serde(default)]
     impatient: bool,
+    /// client driver only: some requests are placed in BURSTS of 2-4 (all sent before any response is
+    /// awaited, as an engine sends a batch of orders generated from one event)
+    #[serde(default)]
+    burst: bool,
 }
 
 fn d(s: &str) -> Decimal {
@@ -285,7 +289,72 @@ fn run_client(case: &Case) -> Result<Outcome, V> {
         let mut ids: HashSet<String> = HashSet::new();
         let wait = Duration::from_millis(case.latency_ms * 4 + 1000);
 
+        // bursts: chunk sizes cycle 3,1,2,4,1 over the request list
+        let mut burst_of: Vec<usize> = vec![0; case.reqs.len()]; // 0 = on its own, k = member of a burst starting at k-1
+        if case.burst {
+            let (mut at, mut c) = (0usize, 0usize);
+            while at < case.reqs.len() {
+                let size = [3usize, 1, 2, 4, 1][c % 5].min(case.reqs.len() - at);
+                if size > 1 {
+                    for slot in burst_of.iter_mut().skip(at).take(size) {
+                        *slot = at + 1;
+                    }
+                }
+                at += size;
+                c += 1;
+            }
+        }
+        let mut in_burst = false;
         for (n, r) in case.reqs.iter().enumerate() {
+            if burst_of[n] != 0 {
+                if burst_of[n] != n + 1 {
+                    continue; // handled with the head of its burst
+                }
+                let members: Vec<usize> = (n..case.reqs.len()).take_while(|m| burst_of[*m] == n + 1).collect();
+                let owned: Vec<_> = members.iter().map(|m| request(&case.reqs[*m], *m)).collect();
+                let calls = owned.iter().map(|req| {
+                    client.open_order(OrderRequestOpen {
+                        key: OrderKey { exchange: req.key.exchange, instrument: &req.key.instrument, strategy: req.key.strategy.clone(), cid: req.key.cid.clone() },
+                        state: req.state.clone(),
+                    })
+                });
+                let responses = match tokio::time::timeout(wait, futures::future::join_all(calls)).await {
+                    Ok(r) => r,
+                    Err(_) => return Err(("no_response_from_mock_exchange", format!("burst of requests #{members:?}"))),
+                };
+                in_burst = true;
+                out.cells.push("burst_of_orders_sent_before_any_response_was_awaited".into());
+                let spent_assets: HashSet<String> = members.iter().filter_map(|m| match led.decide(&case.reqs[*m]) { Decision::Accept { asset, .. } => Some(asset), _ => None }).collect();
+                let mut accepted_in_burst = 0;
+                for (m, resp) in members.iter().zip(responses.iter()) {
+                    let r = &case.reqs[*m];
+                    out.steps += 1;
+                    out.checks += 1;
+                    let decision = led.decide(r);
+                    match (&decision, &resp.state) {
+                        (Decision::Reject(_), Err(_)) => out.rejected += 1,
+                        (Decision::Accept { asset, amount, fee_quote }, Ok(open)) => {
+                            out.accepted += 1;
+                            accepted_in_burst += 1;
+                            *led.bal.get_mut(asset).unwrap() -= *amount;
+                            led.accepted.push((*m, *fee_quote));
+                            if !ids.insert(open.id.0.to_string()) {
+                                return Err(("order_id_reused", format!("request #{m}: id {}", open.id.0)));
+                            }
+                            expected_events.push(("balance".into(), format!("{asset}={}", led.bal[asset])));
+                            expected_events.push(("trade".into(), format!("cid{m}:{}:{}", open.id.0, fee_quote.normalize())));
+                        }
+                        (Decision::Reject(why), Ok(open)) => return Err(("order_accepted_that_must_be_rejected", format!("request #{m} (in a burst) {r:?} ({why}): {open:?}"))),
+                        (Decision::Accept { asset, amount, .. }, Err(e)) => {
+                            return Err(("order_rejected_although_spent_asset_suffices", format!("request #{m} (in a burst) {r:?}: holds {} {asset}, needs {amount}: {e:?}", led.bal[asset])));
+                        }
+                    }
+                }
+                if accepted_in_burst >= 2 && spent_assets.len() < accepted_in_burst {
+                    out.cells.push("burst_with_several_accepted_orders_spending_one_asset".into());
+                }
+                continue;
+            }
             let req = request(r, n);
             let req_ref = OrderRequestOpen {
                 key: OrderKey { exchange: req.key.exchange, instrument: &req.key.instrument, strategy: req.key.strategy.clone(), cid: req.key.cid.clone() },
@@ -360,7 +429,23 @@ fn run_client(case: &Case) -> Result<Outcome, V> {
             v.iter().map(|(k, s)| if k == "trade" { format!("trade:{}", s.splitn(2, ':').nth(1).unwrap_or("")) } else { format!("{k}:{s}") }).collect()
         };
         let same = |g: &[String], w: &[String]| g.len() == w.len() && g.iter().zip(w.iter()).all(|(a, b)| a == b || (b.starts_with("trade:*:") && a.starts_with("trade:") && a.rsplit(':').next() == b.rsplit(':').next()));
-        if !same(&norm(&got), &norm(&expected_events)) {
+        // the notifications of the orders of one burst are due at the same instant: their mutual order is not
+        // part of the statement, so a run with bursts is compared as a multiset (one balance + one trade per
+        // accepted order, none else), a run without as the exact sequence
+        let (mut g, mut w) = (norm(&got), norm(&expected_events));
+        if in_burst {
+            let star = |v: &mut Vec<String>| {
+                for x in v.iter_mut() {
+                    if x.starts_with("trade:") {
+                        *x = format!("trade:*:{}", x.rsplit(':').next().unwrap_or(""));
+                    }
+                }
+                v.sort();
+            };
+            star(&mut g);
+            star(&mut w);
+        }
+        if !same(&g, &w) {
             return Err(("account_stream_notifications_differ_from_accepted_orders", format!("expected {:?} observed {:?}", norm(&expected_events), norm(&got))));
         }
         // queries reflect exactly the accepted orders
@@ -520,7 +605,7 @@ fn gen_case(rng: &mut Rng) -> Case {
             }
         }
     }
-    Case { balances, fee, latency_ms: *rng.pick(&[0u64, 1, 10, 250]), reqs, clock_steps_back: rng.bool(), impatient: rng.chance(1, 3) }
+    Case { balances, fee, latency_ms: *rng.pick(&[0u64, 1, 10, 250]), reqs, clock_steps_back: rng.bool(), impatient: rng.chance(1, 3), burst: rng.chance(1, 3) }
 }
 
 fn execute(case: &Case, client: bool, report: &mut Report) {
@@ -593,6 +678,8 @@ fn main() {
             "trade_query_with_non_monotone_request_times",
             "accepted_order_whose_response_nobody_awaited",
             "caller_disconnected_before_the_latency_of_its_last_accepted_order_elapsed",
+            "burst_of_orders_sent_before_any_response_was_awaited",
+            "burst_with_several_accepted_orders_spending_one_asset",
         ] {
             report.require(c);
         }
